@@ -130,6 +130,20 @@ func sigOfPanic(m string) string {
 }
 
 // Explore runs the deviation-bounded DFS for every bound of cfg.Bounds.
+// FairDeadline gives scenario i of n its share of what is left until end: (end-now)/(n-i) from
+// now. Scenarios that finish early leave their unused share to the later ones; when the budget is
+// too small every scenario is still explored to some depth instead of only the first ones.
+func FairDeadline(end time.Time, i, n int) time.Time {
+	if end.IsZero() || n-i <= 1 {
+		return end
+	}
+	left := time.Until(end)
+	if left <= 0 {
+		return end
+	}
+	return time.Now().Add(left / time.Duration(n-i))
+}
+
 func Explore(cfg Config) (Stats, []Violation) {
 	if cfg.ShardN <= 0 {
 		cfg.ShardN = 1
@@ -175,13 +189,16 @@ func Explore(cfg Config) (Stats, []Violation) {
 		}
 	}
 
-	for _, b := range cfg.Bounds {
+	for bi, b := range cfg.Bounds {
 		var execs int64
 		var c2 int64 // deterministic counter of level-2 nodes (sharding)
 		stack := []workItem{{nil, 0, 0, 0}}
 		capped := false
 		for len(stack) > 0 {
-			if !cfg.Deadline.IsZero() && time.Now().After(cfg.Deadline) {
+			// the base bound of a delay-bounded scenario (the default schedule and, with DB > 0, its
+			// environment deviations) is explored whatever the deadline says: a scenario late in a
+			// unit's list is never left entirely unexplored because earlier ones used up the budget
+			if !cfg.Deadline.IsZero() && time.Now().After(cfg.Deadline) && !(cfg.DelayBounded && bi == 0 && b.PB == 0 && b.DB == 0) {
 				capped = true
 				break
 			}
